@@ -27,10 +27,24 @@ def FuncLazy.getOwn (protoProp : Stored V) (f : FuncLazy V) (k : Key) : Option (
   let f' := f.addProto protoProp k
   (lookup f'.props k, f')
 
-/-- `defineOwnPropertyStr` func.go:203: `_addProto(name)` then `baseObject.defineOwnPropertyStr` -/
-def FuncLazy.define [DecidableEq V] (undef : V) (protoProp : Stored V) (f : FuncLazy V) (k : Key) (d : Desc V) :
+/-- PRE-FIX (before fcdbd47) `defineOwnPropertyStr`: `_addProto(name)` then `baseObject.defineOwnPropertyStr` — the slot
+was materialised only when the key WAS "prototype", so a key added earlier ended up before it.  Kept for the regression
+witness only. -/
+def FuncLazy.definePre [DecidableEq V] (undef : V) (protoProp : Stored V) (f : FuncLazy V) (k : Key) (d : Desc V) :
     FuncLazy V × Bool :=
   let f' := f.addProto protoProp k
+  match defineOwn undef (lookup f'.props k) d f'.ext with
+  | some v => ({ f' with props := put f'.props k v }, true)
+  | none => (f', false)
+
+/-- `_addProtoBeforeNewKey(n)` func.go:175 (fcdbd47): materialise before a NEW string key is created -/
+def FuncLazy.addProtoNew (protoProp : Stored V) (f : FuncLazy V) (k : Key) : FuncLazy V :=
+  if f.mat = false ∧ lookup f.props k = none then { f with props := f.props ++ [(kProto, protoProp)], mat := true } else f
+
+/-- `defineOwnPropertyStr` func.go:213 (and `setOwnStr` :204): `_addProtoBeforeNewKey(name)` then the baseObject method -/
+def FuncLazy.define [DecidableEq V] (undef : V) (protoProp : Stored V) (f : FuncLazy V) (k : Key) (d : Desc V) :
+    FuncLazy V × Bool :=
+  let f' := f.addProtoNew protoProp k
   match defineOwn undef (lookup f'.props k) d f'.ext with
   | some v => ({ f' with props := put f'.props k v }, true)
   | none => (f', false)
@@ -63,23 +77,23 @@ theorem put_append_absent {α} (l : List (Key × α)) (k0 : Key) (a0 : α) (k : 
     · simp only [lookup, h, if_false] at hk
       simp [put, h, ih hk]
 
-theorem funcLazy_refines [DecidableEq V] (undef : V) (protoProp : Stored V) (f : FuncLazy V) (hwf : f.WF) (k : Key) (d : Desc V) :
+theorem funcLazyPre_refines [DecidableEq V] (undef : V) (protoProp : Stored V) (f : FuncLazy V) (hwf : f.WF) (k : Key) (d : Desc V) :
     (f.getOwn protoProp k).1 = lookup (f.eager protoProp) k
     ∧ (f.getOwn protoProp k).2.WF ∧ (f.getOwn protoProp k).2.eager protoProp = f.eager protoProp
-    ∧ ((f.define undef protoProp k d).2 = (defineOwn undef (lookup (f.eager protoProp) k) d f.ext).isSome)
+    ∧ ((f.definePre undef protoProp k d).2 = (defineOwn undef (lookup (f.eager protoProp) k) d f.ext).isSome)
     ∧ (∀ v, defineOwn undef (lookup (f.eager protoProp) k) d f.ext = some v →
-         ((f.define undef protoProp k d).1.eager protoProp).Perm (put (f.eager protoProp) k v)
-         ∧ ∀ k', lookup ((f.define undef protoProp k d).1.eager protoProp) k' = lookup (put (f.eager protoProp) k v) k') := by
+         ((f.definePre undef protoProp k d).1.eager protoProp).Perm (put (f.eager protoProp) k v)
+         ∧ ∀ k', lookup ((f.definePre undef protoProp k d).1.eager protoProp) k' = lookup (put (f.eager protoProp) k v) k') := by
   cases hm : f.mat with
   | true =>
     have hadd : f.addProto protoProp k = f := by simp [FuncLazy.addProto, hm]
     have he : f.eager protoProp = f.props := by simp [FuncLazy.eager, hm]
     refine ⟨by simp [FuncLazy.getOwn, hadd, he], by simpa [FuncLazy.getOwn, hadd] using hwf, by simp [FuncLazy.getOwn, hadd], ?_, ?_⟩
-    · simp only [FuncLazy.define, hadd, he]
+    · simp only [FuncLazy.definePre, hadd, he]
       cases defineOwn undef (lookup f.props k) d f.ext <;> simp
     · intro v hv
       rw [he] at hv
-      simp only [FuncLazy.define, hadd, hv, he, FuncLazy.eager, hm, if_true]
+      simp only [FuncLazy.definePre, hadd, hv, he, FuncLazy.eager, hm, if_true]
       exact ⟨List.Perm.refl _, by simp⟩
   | false =>
     have hno : lookup f.props kProto = none := hwf hm
@@ -90,11 +104,11 @@ theorem funcLazy_refines [DecidableEq V] (undef : V) (protoProp : Stored V) (f :
       have hadd : f.addProto protoProp kProto = { f with props := f.props ++ [(kProto, protoProp)], mat := true } := by
         simp [FuncLazy.addProto, hm]
       refine ⟨by simp [FuncLazy.getOwn, hadd, he], by simp [FuncLazy.getOwn, hadd, FuncLazy.WF], by simp [FuncLazy.getOwn, hadd, FuncLazy.eager, hm], ?_, ?_⟩
-      · simp only [FuncLazy.define, hadd, he]
+      · simp only [FuncLazy.definePre, hadd, he]
         cases defineOwn undef (lookup (f.props ++ [(kProto, protoProp)]) kProto) d f.ext <;> simp
       · intro v hv
         rw [he] at hv
-        simp only [FuncLazy.define, hadd, hv, he, FuncLazy.eager, if_true]
+        simp only [FuncLazy.definePre, hadd, hv, he, FuncLazy.eager, if_true]
         exact ⟨by simp [hm], by intro k'; simp [hm]⟩
     · have hadd : f.addProto protoProp k = f := by simp [FuncLazy.addProto, hk]
       have hlk : lookup (f.eager protoProp) k = lookup f.props k := by
@@ -103,11 +117,11 @@ theorem funcLazy_refines [DecidableEq V] (undef : V) (protoProp : Stored V) (f :
         | some x => rfl
         | none => simp [Ne.symm hk]
       refine ⟨by simp [FuncLazy.getOwn, hadd, hlk], by simpa [FuncLazy.getOwn, hadd] using hwf, by simp [FuncLazy.getOwn, hadd], ?_, ?_⟩
-      · simp only [FuncLazy.define, hadd, hlk]
+      · simp only [FuncLazy.definePre, hadd, hlk]
         cases defineOwn undef (lookup f.props k) d f.ext <;> simp
       · intro v hv
         rw [hlk] at hv
-        simp only [FuncLazy.define, hadd, hv, FuncLazy.eager, hm, Bool.false_eq_true, if_false, he]
+        simp only [FuncLazy.definePre, hadd, hv, FuncLazy.eager, hm, Bool.false_eq_true, if_false, he]
         cases hex : lookup f.props k with
         | some x =>
           rw [put_append_absent f.props kProto protoProp k v hk (by simp [hex])]
@@ -129,5 +143,85 @@ theorem funcLazy_refines [DecidableEq V] (undef : V) (protoProp : Stored V) (f :
                 · exact absurd (h1.trans h2.symm) hk
                 · simp [h1, h2]
               · by_cases h2 : kProto = k' <;> simp [h1, h2]
+
+/-! ### current code (fcdbd47): `prototype` is materialised before any NEW string key — exact refinement -/
+
+theorem addProtoNew_eager (protoProp : Stored V) (f : FuncLazy V) (k : Key) :
+    (f.addProtoNew protoProp k).eager protoProp = f.eager protoProp := by
+  unfold FuncLazy.addProtoNew
+  split
+  · rename_i hc; simp [FuncLazy.eager, hc.1]
+  · rfl
+
+theorem addProtoNew_ext (protoProp : Stored V) (f : FuncLazy V) (k : Key) : (f.addProtoNew protoProp k).ext = f.ext := by
+  unfold FuncLazy.addProtoNew; split <;> rfl
+
+theorem addProtoNew_wf (protoProp : Stored V) (f : FuncLazy V) (k : Key) (h : f.WF) : (f.addProtoNew protoProp k).WF := by
+  unfold FuncLazy.addProtoNew
+  split
+  · intro hm; simp at hm
+  · exact h
+
+/-- after `_addProtoBeforeNewKey(k)` the own lookup of `k` is the eager function's, and either the slot is materialised
+or `k` is an existing key other than "prototype" -/
+theorem addProtoNew_lookup (protoProp : Stored V) (f : FuncLazy V) (hwf : f.WF) (k : Key) :
+    lookup (f.addProtoNew protoProp k).props k = lookup (f.eager protoProp) k
+    ∧ ((f.addProtoNew protoProp k).mat = true ∨
+        ((f.addProtoNew protoProp k).mat = false ∧ f.addProtoNew protoProp k = f ∧ (lookup f.props k).isSome = true ∧ k ≠ kProto)) := by
+  cases hm : f.mat with
+  | true =>
+    have : f.addProtoNew protoProp k = f := by simp [FuncLazy.addProtoNew, hm]
+    rw [this]
+    exact ⟨by simp [FuncLazy.eager, hm], Or.inl hm⟩
+  | false =>
+    cases hl : lookup f.props k with
+    | none =>
+      have : f.addProtoNew protoProp k = { f with props := f.props ++ [(kProto, protoProp)], mat := true } := by
+        simp [FuncLazy.addProtoNew, hm, hl]
+      rw [this]
+      exact ⟨by simp [FuncLazy.eager, hm], Or.inl rfl⟩
+    | some x =>
+      have : f.addProtoNew protoProp k = f := by simp [FuncLazy.addProtoNew, hm, hl]
+      rw [this]
+      have hk : k ≠ kProto := by
+        intro e; rw [e, hwf hm] at hl; cases hl
+      refine ⟨?_, Or.inr ⟨hm, rfl, by simp [hl], hk⟩⟩
+      simp [FuncLazy.eager, hm, lookup_append_single, hl]
+
+theorem funcLazy_define_refines [DecidableEq V] (undef : V) (protoProp : Stored V) (f : FuncLazy V) (hwf : f.WF) (k : Key)
+    (d : Desc V) :
+    ((f.define undef protoProp k d).2 = (defineOwn undef (lookup (f.eager protoProp) k) d f.ext).isSome)
+    ∧ (∀ v, defineOwn undef (lookup (f.eager protoProp) k) d f.ext = some v →
+         (f.define undef protoProp k d).1.eager protoProp = put (f.eager protoProp) k v)
+    ∧ (defineOwn undef (lookup (f.eager protoProp) k) d f.ext = none →
+         (f.define undef protoProp k d).1.eager protoProp = f.eager protoProp)
+    ∧ (f.define undef protoProp k d).1.WF ∧ (f.define undef protoProp k d).1.ext = f.ext := by
+  obtain ⟨hlk, hcase⟩ := addProtoNew_lookup protoProp f hwf k
+  have hE := addProtoNew_eager protoProp f k
+  have hX := addProtoNew_ext protoProp f k
+  have hW := addProtoNew_wf protoProp f k hwf
+  unfold FuncLazy.define
+  simp only [hlk, hX]
+  cases hd : defineOwn undef (lookup (f.eager protoProp) k) d f.ext with
+  | none =>
+    refine ⟨rfl, fun v hv => (by cases hv), fun _ => hE, hW, hX⟩
+  | some v =>
+    refine ⟨rfl, ?_, fun h => (by cases h), ?_, rfl⟩
+    · intro v' hv'
+      cases hv'
+      rcases hcase with hm | ⟨hm, hsame, hsome, hk⟩
+      · rw [← hE]
+        simp [FuncLazy.eager, hm]
+      · rw [← hE]
+        simp only [FuncLazy.eager, hm, Bool.false_eq_true, if_false]
+        rw [hsame] at hm ⊢
+        exact (put_append_absent f.props kProto protoProp k v hk hsome).symm
+    · intro hm
+      simp only at hm
+      rcases hcase with hm' | ⟨_, hsame, _, hk⟩
+      · rw [hm'] at hm; cases hm
+      · simp only
+        rw [lookup_put_other _ _ _ _ (Ne.symm hk)]
+        exact hW hm
 
 end GojaModel.C04
